@@ -224,6 +224,6 @@ Proof.
     apply andb_prop in Ec. destruct Ec as [C1 C2]. apply N.leb_le in C1, C2. change (2 ^ 20) with 1048576. auto. }
   destruct Hr as (R & B1 & B2 & C1 & C2).
   destruct (channel_run_succeeds o L md5 Hmd p rate bps ch R B1 B2 C1 C2 wo total w chunks Hwf Hnew Hchunks Hfit Hm Hlen Htot) as [f Hf].
-  destruct (e2e_channel_pcm o L md5 Hmd p rate bps wo ch total w chunks f Hwf Hnew Hchunks Hf Hfit Hlen) as (blocks & Hd & Hc).
+  destruct (e2e_channel_pcm o L md5 Hmd p rate bps wo ch total w chunks f Hwf Hnew Hchunks Hf Hfit Hlen) as (blocks & Hd & Hc & _).
   exists f, blocks. auto.
 Qed.
